@@ -182,6 +182,7 @@ type Sim struct {
 	Cfg  Config
 
 	Steps      int
+	LibSteps   int // steps of tasks spawned by library code (sites under repo/)
 	Switches   int
 	Stalls     int
 	Unowned    int
@@ -759,6 +760,18 @@ func Log(format string, args ...any) {
 	s.mu.Unlock()
 }
 
+// LibSteps returns the number of scheduler steps taken so far by tasks that
+// library code spawned.
+func LibSteps() int {
+	s := S
+	if s == nil {
+		return 0
+	}
+	s.mu.Lock()
+	defer s.mu.Unlock()
+	return s.LibSteps
+}
+
 // Stamp returns a fresh, strictly increasing event sequence number.
 func Stamp() uint64 {
 	s := S
@@ -1038,6 +1051,9 @@ func (s *Sim) Run(main func()) {
 		s.running = t
 		t.state = tsRunning
 		s.Steps++
+		if strings.HasPrefix(t.Name, "repo/") {
+			s.LibSteps++
+		}
 		s.event(true, fmt.Sprintf("t%d@%s", t.ID, t.Site))
 		s.Sites[t.Site]++
 		s.mu.Unlock()
